@@ -159,6 +159,12 @@ theorem processSend_fr (c : C) (p : Pkt) : Fr c (processSend c p) := by
 @[simp] theorem processSend_cfg (c : C) (p : Pkt) : (processSend c p).cfg = c.cfg := (processSend_fr c p).1
 @[simp] theorem processSend_mps (c : C) (p : Pkt) : (processSend c p).s.mpsSend = c.s.mpsSend := (processSend_fr c p).2
 
+theorem refuseSend_fr (c : C) (e : Nat) (p : Pkt) : Fr c (refuseSend c e p) := by
+  unfold refuseSend
+  (repeat' split) <;> simp [Fr, apply_ite C.cfg, apply_ite C.s, apply_ite St.mpsSend]
+@[simp] theorem refuseSend_cfg (c : C) (e : Nat) (p : Pkt) : (refuseSend c e p).cfg = c.cfg := (refuseSend_fr c e p).1
+@[simp] theorem refuseSend_mps (c : C) (e : Nat) (p : Pkt) : (refuseSend c e p).s.mpsSend = c.s.mpsSend := (refuseSend_fr c e p).2
+
 theorem send_fr (c : C) (p : Pkt) : Fr c (send c p) := by
   unfold send
   (repeat' split) <;> simp [Fr, apply_ite C.cfg, apply_ite C.s, apply_ite St.mpsSend]
